@@ -244,6 +244,7 @@ func (m *Machine) visitInstr(fr *frame, instr ssa.Instruction) continuation {
 			break
 		}
 		m.spawn(fn, args, instr.Pos())
+		m.schedPoint("go")
 
 	case *ssa.MakeChan:
 		sz := fr.get(instr.Size)
@@ -510,6 +511,11 @@ func (m *Machine) callSSA(caller *frame, callpos token.Pos, fn *ssa.Function, ar
 	}
 	if ext := m.prog.lookupExternal(fn); ext != nil {
 		m.noteStub(fn)
+		if m.preemptMode && fn.Pkg != nil {
+			if pp := fn.Pkg.Pkg.Path(); (pp == "sync" || pp == "sync/atomic") && !strings.Contains(fn.String(), "sync.Pool") {
+				m.schedPoint(fn.String())
+			}
+		}
 		if m.seg != nil && fn.Pkg != nil && fn.Pkg.Pkg.Path() == "sync/atomic" {
 			m.inAtomic = true
 			defer func() { m.inAtomic = false }()
